@@ -21,6 +21,10 @@ type ReadPlan struct {
 	ZeroReadAt  []int  // indices of Read calls that return (0, nil)
 	EOFWithData bool   // the last data is returned together with io.EOF
 	FailAfter   int    // -1: never; k: a hard error once k bytes have been delivered
+	// Transient: "" (the error at FailAfter is EIO and every later Read fails too), or
+	// "EINTR" / "EAGAIN": the error is returned by exactly one Read, after which the
+	// reader carries on with the remaining bytes.
+	Transient string
 }
 
 type Reader struct {
@@ -31,11 +35,13 @@ type Reader struct {
 	Failed     bool
 	ReachedEOF bool
 	Stats      *Counters
+	transDone  bool
 }
 
 type Counters struct {
 	Reads, ZeroReads, ShortReads, HardReadErrors, EOFWithData, OpenErrors, WriteErrors, Writes, Opens, Exits int
 	ErrorOnLastByte, ErrorAtStart, ErrorAfterAll                                                             int
+	TransientReadErrors                                                                                      int
 }
 
 var ErrIO = syscall.EIO
@@ -64,7 +70,15 @@ func (r *Reader) Read(p []byte) (int, error) {
 			return 0, nil
 		}
 	}
-	if r.Plan.FailAfter >= 0 && r.off >= r.Plan.FailAfter {
+	if r.Plan.FailAfter >= 0 && r.off >= r.Plan.FailAfter && r.Plan.Transient != "" && !r.transDone {
+		r.transDone = true
+		r.Stats.TransientReadErrors++
+		if r.Plan.Transient == "EINTR" {
+			return 0, syscall.EINTR
+		}
+		return 0, syscall.EAGAIN
+	}
+	if r.Plan.FailAfter >= 0 && r.off >= r.Plan.FailAfter && r.Plan.Transient == "" {
 		r.Failed = true
 		r.Stats.HardReadErrors++
 		switch {
@@ -102,7 +116,7 @@ func (r *Reader) Read(p []byte) (int, error) {
 	if n > rem {
 		n = rem
 	}
-	if r.Plan.FailAfter >= 0 && r.off+n > r.Plan.FailAfter {
+	if r.Plan.FailAfter >= 0 && r.off+n > r.Plan.FailAfter && !r.transDone {
 		n = r.Plan.FailAfter - r.off
 	}
 	if n < len(p) && n < rem {
@@ -110,7 +124,7 @@ func (r *Reader) Read(p []byte) (int, error) {
 	}
 	copy(p, r.Plan.Data[r.off:r.off+n])
 	r.off += n
-	if r.off == len(r.Plan.Data) && r.Plan.EOFWithData && r.Plan.FailAfter < 0 {
+	if r.off == len(r.Plan.Data) && r.Plan.EOFWithData && (r.Plan.FailAfter < 0 || r.transDone) {
 		r.Stats.EOFWithData++
 		r.ReachedEOF = true
 		return n, io.EOF
